@@ -352,6 +352,33 @@ class SymArray(np.ndarray):
 
     __hash__ = None  # type: ignore[assignment]
 
+    # in-place operators: numpy refuses `ndarray -= x` outright when x sets __array_ufunc__ = None (our scalars do)
+    def _inplace(self, o, f):
+        res = elementwise(f, self, o)
+        self.view(np.ndarray)[...] = np.broadcast_to(_obj(res), self.shape)
+        return self
+
+    def __iadd__(self, o):
+        return self._inplace(o, lambda a, b: a + b)
+
+    def __isub__(self, o):
+        return self._inplace(o, lambda a, b: a - b)
+
+    def __imul__(self, o):
+        return self._inplace(o, lambda a, b: a * b)
+
+    def __itruediv__(self, o):
+        return self._inplace(o, lambda a, b: a / b)
+
+    def __ifloordiv__(self, o):
+        return self._inplace(o, lambda a, b: a // b)
+
+    def __imod__(self, o):
+        return self._inplace(o, lambda a, b: a % b)
+
+    def __ipow__(self, o):
+        return self._inplace(o, lambda a, b: a ** b)
+
     def __invert__(self):
         return elementwise(_logical_not, self)
 
